@@ -65,6 +65,13 @@ def gen(rng, tier):
         cs.append(Case("pwhash_obj %d %d %d %s %s %s" % (1 + i % 2, 1024 * (8 + i % 5), 16 + i * 3 % 50, hx(pwd), hx(rbytes(rng, 16)), hx(wrong)), cls="pwhash_obj/verify",
                        expect=lambda a: " verify=okerr " in a and " rt " in a, meta={"why": "object verify must accept the password that produced the hash and reject another"}))
         cs.append(Case("pwhash_keypair 1 8192 %s %s" % (hx(pwd), hx(rbytes(rng, 16))), cls="pwhash_keypair"))
+    # the object API's Config carries the memory limit through unchanged: limits that are not whole KiB, and KiB counts that are not
+    # multiples of 4 (the hash depends on m_cost = floor(memlimit / 1024) itself, not on the block count Argon2 rounds to)
+    for mem in (8193, 9000, 10000, 11264, 13824, 100000):
+        pwd, salt = rbytes(rng, 7), rbytes(rng, 16)
+        cs.append(Case("pwhash_obj 1 %d 32 %s %s %s" % (mem, hx(pwd), hx(salt), hx(b"x")), cls="pwhash_obj/memlimit-not-aligned",
+                       expect=lambda a: " verify=okerr " in a and " rt " in a))
+        cs.append(Case("pwhash 2 32 1 %d %s %s" % (mem, hx(pwd), hx(salt)), cls="pwhash/memlimit-not-aligned"))
     return cs
 
 
